@@ -122,7 +122,7 @@ Next ==
               /\ PrintT("COVER " \o ToJson([trace |-> rec.trace, i |-> rec.i, tags |-> {"init"}]))
               /\ LET v == JudgeState(post, rec, GhostStart(post, rec)) IN
                    \A x \in v : PrintT("VIOL " \o ToJson([trace |-> rec.trace, i |-> rec.i, ev |-> rec.ev, prop |-> x.p, msg |-> x.m, kf |-> x.kf]))
-         ELSE LET gh2 == GhostNext(gh, st, rec, post)
+         ELSE LET gh2 == GhostNext(gh, st, rec, post, DriftOf(st, rec, post) = {})
                   v == Judge(st, rec, post, gh, gh2)
                   d == DriftOf(st, rec, post)
                   c == Covers(st, rec, post, gh, gh2)
